@@ -962,6 +962,19 @@ def _inv_oracle(case):
 
 def optics_checks(ctx, lean, oracle, name, c, op, case):
     import linops_ref
+    import opgrid
+
+    if c["pad_factor"] == 1:
+        # C04_propagator_semigroup on the implementation: z = 0 is the identity, and A(z/2) A(z/2) = A(z)
+        n = _prod(c["shape"])
+        A0 = opgrid.dense(opgrid.build(name, dict(c, z=0.0)))
+        Ah = opgrid.dense(opgrid.build(name, dict(c, z=c["z"] / 2)))
+        Az = opgrid.dense(op)
+        ctx.count("optics-semigroup")
+        if not (_close(A0, np.eye(n), 2e-5) and _close(Ah @ Ah, Az, 1e-4)):
+            ctx.disagree(f"linops.{name}.semigroup", case, _summ(Ah @ Ah), _summ(Az), oracle=oracle,
+                         note="propagation over z = 0 is not the identity or two half steps differ from one full step")
+            return
 
     sh = [c["pad_factor"] * s for s in c["shape"]]
     dx = linops_ref._dxs(c)
@@ -984,6 +997,13 @@ def optics_checks(ctx, lean, oracle, name, c, op, case):
 
 
 # --------------------------------------------------------------------------
+
+
+def generate(ctx):
+    """tables of the source (constructor defaults, option sets, constants, exported classes) -> Scico/Generated/LinOpsTables.lean"""
+    import linops_translate
+
+    return linops_translate.generate(ctx)
 
 
 def _corpus():
@@ -1016,6 +1036,15 @@ def correspond(ctx, model):
         ctx.count("corpus")
         check_config(ctx, lean, oracle, name, c, op)
     ctx.exhaustive = bool(ctx.thorough)
+    # constants read from the source by the translator (pinned by the generated obligation constants_eq): the grid must
+    # contain volumes with more slices than one slab of XRayTransform3D._project
+    import linops_translate
+
+    consts = dict(linops_translate.extract()[2])
+    slab = int(consts["XRayTransform3D._project.MAX_SLICE_LEN"])
+    if not any(c["shape"][0] > slab for c in opgrid.grid("XRayTransform3D", np.random.Generator(np.random.PCG64(0)))):
+        raise common.Infra(f"grid has no XRayTransform3D volume with more than MAX_SLICE_LEN = {slab} slices")
+    ctx.extra["source_constants"] = consts
     sizes = {}
     for name in opgrid.CLASSES:
         k = 20 if name in MODELLED else 7  # quick tier: larger sample for the classes inside the Lean model
